@@ -49,7 +49,12 @@ def _signature(bad, at, v):
 TSPEC['signature'] = _signature
 
 # system-level part (multi-GPU result independence): defined later by the coordinator as run_system(ctx)
-run_system = None
+try:
+    import c18sys
+    run_system = c18sys.run_system
+    replay_system = c18sys.replay_system
+except ImportError:          # the system half is optional at import time
+    run_system = None
 
 
 # ----------------------------------------------------------------- trace facts
